@@ -334,6 +334,28 @@ func (e *Engine) binop(op token.Token, x, y Value, t types.Type) Value {
 		}
 		return e.boolNot(eq)
 	}
+	// symbolic strings are integer atoms; the empty string is atom 0
+	if sx, ok := x.(string); ok {
+		if _, yt := y.(*Term); yt {
+			if sx != "" {
+				unsupported("comparison of a symbolic string with a concrete non-empty string")
+			}
+			x, t = int64(0), nil
+		}
+	}
+	if sy, ok := y.(string); ok {
+		if _, xt := x.(*Term); xt {
+			if sy != "" {
+				unsupported("comparison of a symbolic string with a concrete non-empty string")
+			}
+			y, t = int64(0), nil
+		}
+	}
+	if t != nil {
+		if b, ok := t.Underlying().(*types.Basic); ok && b.Info()&types.IsString != 0 {
+			t = nil // atoms compare as mathematical integers
+		}
+	}
 	xt, xs := x.(*Term)
 	yt, ys := y.(*Term)
 	if !xs && !ys {
@@ -361,9 +383,7 @@ func (e *Engine) binop(op token.Token, x, y Value, t types.Type) Value {
 		}
 		unsupported("bool binop %v", op)
 	}
-	if _, isStr := x.(string); isStr {
-		unsupported("string compared with symbolic value")
-	}
+
 	width, unsigned := 64, false
 	if t != nil {
 		if b, u, ok := intKind(t); ok {
